@@ -24,6 +24,7 @@ from ..engine import (
     _runaway_observer,
 )
 from ..runner import V
+from ..engine import is_engine_exception as _is_engine_exception
 
 from pokerkit import HandHistory
 
@@ -87,7 +88,9 @@ def c20_case(draw):
                 hero=draw(st.integers(0, n - 1)),
                 site=draw(st.sampled_from(SITES)),
                 corrupt=draw(st.sampled_from([None, None, 'under', 'over'])),
-                thousands=draw(st.booleans()))
+                thousands=draw(st.booleans()),
+                copies=draw(st.sampled_from([0, 0, 2, 3])),
+                tricky_names=draw(st.sampled_from([False, False, True])))
 
 
 def budget(tier):
@@ -198,7 +201,10 @@ def check(case, stats):
         if len(posts) != 2 or sorted(o.amount for o in posts) != [sb, bb]:
             stats.count('skipped:short_blind')
             return []
-        rec = render_sites.extract(s, case['seats'], case['hero'])
+        rec = render_sites.extract(s, case['seats'], case['hero'],
+                                   bool(case.get('tricky_names')))
+        if case.get('tricky_names'):
+            stats.count('class:tricky_names')
         render_sites.THOUSANDS = bool(case.get('thousands')) and \
             site != 'pokerstars'
         try:
@@ -284,6 +290,44 @@ def check(case, stats):
                          f' {final.status}), the log with {list(s.stacks)};'
                          f' actions {hh.actions}'))
             return out
+        # a file with several hands: each hand imports as it does alone
+        # (nothing carries over from the hand before)
+        copies = case.get('copies') or 0
+        if copies >= 2 and site != 'ipoker':
+            render_sites.THOUSANDS = bool(case.get('thousands')) and \
+                site != 'pokerstars'
+            try:
+                parts = []
+                for c in range(copies):
+                    try:
+                        parts.append(render(rec, sb, bb, 7000000 + c))
+                    except TypeError:
+                        parts.append(render(rec, sb, bb))
+            finally:
+                render_sites.THOUSANDS = False
+            flog = '\n\n\n'.join(parts) + '\n'
+            try:
+                many = list(importer(flog, error_status=True))
+            except Exception as e:  # noqa: BLE001
+                if not _is_engine_exception(e):
+                    raise
+                out.append(V(ID, 'multi_hand_file', site,
+                             f'{copies} copies of an importable hand in one'
+                             f' file: {type(e).__name__}: {str(e)[:200]}'))
+                return out
+            stats.count('class:multi_hand_file')
+            if len(many) != copies or any(
+                    list(m.actions) != list(hh.actions)
+                    or list(m.starting_stacks) != list(hh.starting_stacks)
+                    for m in many):
+                j = next((j for j, m in enumerate(many)
+                          if list(m.actions) != list(hh.actions)), None)
+                out.append(V(ID, 'multi_hand_file', site,
+                             f'{copies} copies of one hand gave {len(many)}'
+                             f' histories; hand #{j} imports as'
+                             f' {many[j].actions if j is not None else None}'
+                             f' instead of {hh.actions}'))
+                return out
         # corrupted logs must be reported
         how = case.get('corrupt')
         if how:
@@ -342,3 +386,37 @@ def check(case, stats):
         stats.mark_nontrivial(log)
     stats.sample(dict(site=site, log=log[:1800]), nontrivial)
     return out
+
+
+def demonstrate_known(k):
+    """True when the listed finding still reproduces on the current tree."""
+    if k.get('key') != 'screen_name_starts_with_calls_or_checks':
+        return False
+    log = (
+        "Full Tilt Poker Game #1234567: Table Alpha (9 max) - $1/$2 - No"
+        " Limit Hold'em - 12:34:56 ET - 2010/01/02\n"
+        "Seat 1: Alice ($200)\nSeat 2: Bob ($200)\n"
+        "Seat 3: callstation ($200)\n"
+        "Alice posts the small blind of $1\nBob posts the big blind of $2\n"
+        "The button is in seat #3\n*** HOLE CARDS ***\n"
+        "callstation folds\nAlice folds\n"
+        "Uncalled bet of $1 returned to Bob\nBob mucks\n"
+        "Bob wins the pot ($2)\n*** SUMMARY ***\n\n\n\n"
+    )
+    with warnings.catch_warnings():
+        warnings.simplefilter('ignore')
+        try:
+            ok = list(HandHistory.from_full_tilt_poker(
+                log.replace('callstation', 'Carol'), error_status=True))
+            if len(ok) != 1:
+                return False
+        except Exception:  # noqa: BLE001
+            return False
+        try:
+            list(HandHistory.from_full_tilt_poker(log, error_status=True))
+        except ValueError:
+            return True
+        except Exception:  # noqa: BLE001
+            return False
+    return False
+
